@@ -910,10 +910,14 @@ impl<P: Xof<SEED_SIZE>, const SEED_SIZE: usize> Poplar1<P, SEED_SIZE> {
             )));
         }
 
+        let inner_levels = self.bits.checked_sub(1).ok_or_else(|| {
+            VdafError::Uncategorized("the input length must be at least one bit".to_string())
+        })?;
+
         // Generate the authenticator for each inner level of the IDPF tree.
         let mut prng =
             self.init_prng::<_, _, Field64>(&poplar_random[2], DST_SHARD_RANDOMNESS, ctx, [nonce]);
-        let auth_inner: Vec<Field64> = (0..self.bits - 1).map(|_| prng.get()).collect();
+        let auth_inner: Vec<Field64> = (0..inner_levels).map(|_| prng.get()).collect();
 
         // Generate the authenticator for the last level of the IDPF tree (i.e., the leaves).
         //
@@ -955,8 +959,8 @@ impl<P: Xof<SEED_SIZE>, const SEED_SIZE: usize> Poplar1<P, SEED_SIZE> {
             ctx,
             [[1].as_slice(), nonce.as_slice()],
         );
-        let mut corr_inner_0 = Vec::with_capacity(self.bits - 1);
-        let mut corr_inner_1 = Vec::with_capacity(self.bits - 1);
+        let mut corr_inner_0 = Vec::with_capacity(inner_levels);
+        let mut corr_inner_1 = Vec::with_capacity(inner_levels);
         for auth in auth_inner.into_iter() {
             let (next_corr_inner_0, next_corr_inner_1) =
                 compute_next_corr_shares(&mut prng, &mut corr_prng_0, &mut corr_prng_1, auth);
@@ -1106,7 +1110,7 @@ impl<P: Xof<SEED_SIZE>, const SEED_SIZE: usize> Aggregator<SEED_SIZE, 16>
             }
         };
 
-        if usize::from(agg_param.level) < self.bits - 1 {
+        if usize::from(agg_param.level) + 1 < self.bits {
             let mut corr_prng = self.init_prng::<_, _, Field64>(
                 input_share.corr_seed.as_ref(),
                 DST_CORR_INNER,
@@ -1289,7 +1293,7 @@ impl<P: Xof<SEED_SIZE>, const SEED_SIZE: usize> Aggregator<SEED_SIZE, 16>
 
     fn aggregate_init(&self, agg_param: &Self::AggregationParam) -> Self::AggregateShare {
         Poplar1FieldVec::zero(
-            usize::from(agg_param.level) == self.bits - 1,
+            usize::from(agg_param.level) + 1 == self.bits,
             agg_param.prefixes.len(),
         )
     }
@@ -1336,7 +1340,7 @@ impl<P: Xof<SEED_SIZE>, const SEED_SIZE: usize> Collector for Poplar1<P, SEED_SI
         _num_measurements: usize,
     ) -> Result<Vec<u64>, VdafError> {
         let result = aggregate(
-            usize::from(agg_param.level) == self.bits - 1,
+            usize::from(agg_param.level) + 1 == self.bits,
             agg_param.prefixes.len(),
             agg_shares,
         )?;
